@@ -184,9 +184,14 @@ def write_evidence(prop, tier, seed, results, proved, bounded, known, violations
     opaque = sorted({o for r in results for o in (r.get('opaque') or [])})
     for o in opaque:
         assumed.append('spec function %s is uninterpreted in caller obligations; its defining contract is a separate obligation' % o)
+    nontrivial = sum(1 for r in results if r['status'] == 'discharged' and (r.get('goals') or 0) > 0 and not r.get('canary'))
+    level = 'proof' if nd > 0 else 'other'
     ev = {
-        'property_id': prop, 'tier': tier, 'seed': seed, 'level': 'proof',
+        'property_id': prop, 'tier': tier, 'seed': seed, 'level': level,
         'coverage': {
+            'evaluations': len(results), 'distinct_nontrivial': nontrivial,
+            'rule': 'one evaluation = one obligation instance (a contract clause set for one case of sizes) generated from the real source and decided; non-trivial = discharged with at least one generated postcondition; instances are distinct by construction (distinct case parameters)',
+            'explanation': 'contract-based verification conditions generated from the real code; classes L/I/E are proved without bound, class B instances are bounded stand-ins (symbolic contents, enumerated sizes) and are never counted in obligations/discharged' + ('' if nd > 0 else '; THIS property currently has only bounded (class B) obligations, hence level other'),
             'obligations': len(proved) - len([r for r in proved if r['id'] in kn]),
             'discharged': nd,
             'checker_cmd': 'bin/check %s %s' % (prop, tier),
